@@ -6,8 +6,14 @@ timeline (not with the library's rated chart)."""
 from __future__ import annotations
 
 import copy
+import dataclasses
 import math
+import os
+import random
+import tempfile
 import warnings
+
+import numpy as np
 
 from pyvc.dsl import bounded
 from pyvc.bounded import replayer
@@ -121,22 +127,115 @@ def _cmp_same_numbers(sa, sb, rel, path=""):
     return None if sa == sb else f"{path}: {sa!r} vs {sb!r}"
 
 
+_NP_NAMES = {"float64", "float32", "float16", "int64", "int32", "int16", "int8", "uint8", "uint16", "uint32", "uint64", "bool_", "bool", "longdouble"}
+
+
+def _norm(s):
+    """C12's snapshot() shows a numpy scalar held in a dataclass field as (type name, value); a rated field may be a numpy float when the
+    rate was one (np.float64 is a float): the statement is about values, so such fields are compared by value"""
+    if isinstance(s, dict):
+        return {k: _norm(v) for k, v in s.items()}
+    if isinstance(s, tuple) and len(s) == 2 and isinstance(s[0], str) and s[0] in _NP_NAMES:
+        return s[1]
+    if isinstance(s, (list, tuple)):
+        return type(s)(_norm(v) for v in s)
+    return s
+
+
+def _snap(obj):
+    return _norm(snapshot(obj))
+
+
+def _rate_arg(r, rate_type):
+    """the rate as the caller passes it: python number as generated, numpy scalar"""
+    if rate_type == "np_float64":
+        return np.float64(r)
+    if rate_type == "np_int64":
+        return np.int64(r)
+    return r
+
+
+def _call_rate(obj, r, call):
+    """the three ways of calling the one observable function: positional, by keyword, through the class"""
+    if call == "kw":
+        return obj.rate(by=r)
+    if call == "class":
+        return type(obj).rate(obj, r)
+    return obj.rate(r)
+
+
+def _charts_and_specs(obj, spec):
+    return list(zip(obj.maps, spec["maps"])) if "maps" in spec else [(obj, spec)]
+
+
+def _build(spec):
+    """build() of C12 + the chart spec key `post`: {list name: 'sorted' | 'perm'} - the list is replaced by lst.sorted() (rows in time
+    order, labels permuted) or by the same rows and labels in a fixed permutation (rows out of time order, labels not 0..n-1 in order)"""
+    obj = build(spec)
+    for m, cs in _charts_and_specs(obj, spec):
+        for name, op in (cs.get("post") or {}).items():
+            lst = chart_lists(m)[name]
+            n = len(lst.df)
+            if n == 0:
+                continue
+            if op == "sorted":
+                new = lst.sorted()
+            else:
+                p = list(range(n))
+                random.Random(n).shuffle(p)
+                if p == sorted(p):
+                    p = p[::-1]
+                new = type(lst)(lst.df.iloc[p])
+            setattr(m, name, new)
+    return obj
+
+
+def _edit_fields(x):
+    if not dataclasses.is_dataclass(x):
+        return
+    for f in dataclasses.fields(x):
+        if f.name in ("objs", "maps"):
+            continue
+        v = getattr(x, f.name)
+        if isinstance(v, list):
+            v.append(v[0] if v else "edited")
+        elif isinstance(v, dict):
+            v["edited"] = "edited"
+
+
+def _edit_everything(o):
+    """edit, in place, every list (one cell, then the whole time column) and every mutable field of a chart / of every chart of a mapset"""
+    is_set = hasattr(o, "maps")
+    for m in (list(o.maps) if is_set else [o]):
+        for _name, lst in chart_lists(m).items():
+            if len(lst.df):
+                j = list(lst.df.columns).index("offset")
+                lst.df.iloc[0, j] = lst.df.iloc[0, j] + 3
+                lst.offset = lst.offset + 7
+        _edit_fields(m)
+    if is_set:
+        _edit_fields(o)
+        if o.maps:
+            o.maps.append(copy.deepcopy(o.maps[0]))
+
+
 def _run_rate_case(case):
-    """case: dict(spec=chart or mapset spec, rate=r[, rate2=b])"""
-    obj = build(case["spec"])
+    """case: dict(spec=chart or mapset spec, rate=r[, rate2=b][, rate_type=, call=, independence=])"""
+    obj = _build(case["spec"])
     r = case["rate"]
-    s0 = snapshot(obj)
+    arg, call = _rate_arg(r, case.get("rate_type", "py")), case.get("call", "pos")
+    s0 = _snap(obj)
     out = []
     try:
-        res = obj.rate(r)
+        res = _call_rate(obj, arg, call)
     except Exception as ex:
-        return [("rate_raises", f"rate({r}): {type(ex).__name__}: {ex}")]
+        return [("rate_raises", f"rate({arg!r}) [{call}]: {type(ex).__name__}: {ex}")]
     if res is obj:
         out.append(("returns_new_chart", "rate() returned its argument"))
-    d = diff(s0, snapshot(obj))
+    d = diff(s0, _snap(obj))
     if d:
         out.append(("original_untouched", "; ".join(d[:3])))
-    s1 = snapshot(res)
+    s1 = _snap(res)
     out.extend(_cmp_rated(s0, s1, r))
     if r == 1:
         d = _cmp_same_numbers(s0, s1, 0.0)
@@ -145,16 +244,36 @@ def _run_rate_case(case):
     if "rate2" in case:
         b = case["rate2"]
         try:
-            two = obj.rate(r).rate(b)
-            one = obj.rate(r * b)
+            two = _call_rate(_call_rate(obj, arg, call), b, call)
+            one = _call_rate(obj, r * b, call)
         except Exception as ex:
             return out + [("rate_raises", f"rate({r}).rate({b}): {type(ex).__name__}: {ex}")]
-        d = _cmp_same_numbers(snapshot(two), snapshot(one), 1e-9)
+        d = _cmp_same_numbers(_snap(two), _snap(one), 1e-9)
         if d:
             out.append(("rate_composes", f"rate({r}).rate({b}) vs rate({r * b}): {d}"))
-        d = diff(s0, snapshot(obj))
+        d = diff(s0, _snap(obj))
         if d:
             out.append(("original_untouched", "; ".join(d[:3])))
+        # the same original rated a second time gives the same result as the first time
+        d = diff(s1, _snap(_call_rate(obj, arg, call)))
+        if d:
+            out.append(("same_result_when_rated_again", "; ".join(d[:3])))
+    if case.get("independence"):
+        # "a new chart ... the original is untouched": the two share nothing, whichever of them is edited afterwards
+        try:
+            d = diff(s1, _snap(res))
+            _edit_everything(obj)
+            d = d or diff(s1, _snap(res))
+            if d:
+                out.append(("result_independent_of_the_original", "the original was edited after rate(); the rated result changed: " + "; ".join(d[:3])))
+            obj2 = _build(case["spec"])
+            res2 = _call_rate(obj2, arg, call)
+            _edit_everything(res2)
+            d = diff(s0, _snap(obj2))
+            if d:
+                out.append(("original_untouched_by_edits_of_the_result", "; ".join(d[:3])))
+        except Exception as ex:
+            out.append(("independence_check_raises", f"{type(ex).__name__}: {ex}"))
     # de-duplicate clause ids, keep first detail
     seen, uniq = set(), []
     for w, dd in out:
@@ -162,6 +281,27 @@ def _run_rate_case(case):
             seen.add(w)
             uniq.append((w, dd))
     return uniq
+
+
+def _intify(spec):
+    """the same chart with whole-number times / lengths / tempi given as python ints (integer-typed columns)"""
+    sp = copy.deepcopy(spec)
+    for name, rows in sp.items():
+        if isinstance(rows, list) and rows and isinstance(rows[0], dict):
+            for row in rows:
+                for k in ("offset", "length", "bpm"):
+                    if isinstance(row.get(k), float) and row[k] == int(row[k]):
+                        row[k] = int(row[k])
+    return sp
+
+
+_TEXT_META = dict(
+    osu=dict(title="東方　アレンジ", title_unicode="～wave〜: dash", artist="Ünï cödé", creator="a:b", version="日本語 [7K]", tags=["東方　x", "a b", "t:a:g"], source="x, y #z //w"),
+    qua=dict(title="東方　アレンジ", artist="Ünï cödé", creator="a:b", difficulty_name="日本語 [7K]", tags=["東方　x", "a b"]),
+    sm=dict(description="東方　アレンジ", difficulty="Challenge", difficulty_val=12),
+    bms=dict(title="〜ＷＡＶＥ　東方".encode("shift_jis"), artist="アーティスト".encode("shift_jis")),
+    o2j=dict(),
+)
 
 
 def _rate_specs(game):
@@ -178,6 +318,43 @@ def _rate_specs(game):
                                    labels=dict(hits="mask", holds="gappy", bpms="after", **({"svs": "gappy"} if sv else {})), **sv)))
     if game == "osu":
         out.append(("preview_sentinel", dict(std_spec(game, hits=[(0, 0)], holds=[], bpms=[(0, 120)]), meta=dict(preview_time=-1))))
+    # --- each list empty on its own
+    out.append(("no_bpms", std_spec(game, hits=[(0, 0), (250, 1)], holds=[(500, 2, 125)], bpms=[], **sv, **osx)))
+    out.append(("no_hits_no_svs", std_spec(game, hits=[], holds=[(100, 1, 400), (100, 2, 0)], bpms=[(0, 60)], **osx)))
+    out.append(("one_row_each", std_spec(game, hits=[(0, 0)], holds=[(0, 1, 1)], bpms=[(0, 100)], **({"svs": [(0, 2.0)]} if sv else {}), **({"samples": [(0, "a.wav", 10)]} if osx else {}),
+                                         **({"stops": [(0, 1)]} if game == "sm" else {}))))
+    if sv:
+        out.append(("only_svs", std_spec(game, hits=[], holds=[], bpms=[], **sv)))
+    if game == "osu":
+        out.append(("only_samples", std_spec(game, hits=[], holds=[], bpms=[], **osx)))
+        out.append(("preview_float_int_zero", dict(std_spec(game, hits=[(0, 0)], holds=[], bpms=[(0, 120)], **osx), meta=dict(preview_time=0))))
+        out.append(("preview_fraction", dict(std_spec(game, hits=[(0, 0)], holds=[], bpms=[(0, 120)]), meta=dict(preview_time=12345.6))))
+    if game == "sm":
+        # lists that carry a `length` without being hold lists (stops), with the hold and roll lists empty
+        out.append(("stops_no_holds", std_spec(game, hits=[(0, 0), (500, 1)], holds=[], bpms=[(0, 120)], stops=[(250, 125), (250, 60), (1000, 0)])))
+    # --- ties, boundaries, extremes: two rows of a list at exactly the same time with different values, time 0, zero-length hold, huge / negative times
+    out.append(("ties_extremes", std_spec(game, hits=[(0, 0), (0, 1), (1e9, 2), (-1e6, 3), (0, 0)], holds=[(0, 2, 0), (500, 1, 0.001), (500, 1, 1e7), (-0.5, 3, 0.5)],
+                                          bpms=[(0, 120), (0, 240), (1e7, 0.001), (-1e6, 1e6)], **({"svs": [(0, 1.0), (0, 2.0), (-5, -1.0)]} if sv else {}),
+                                          **({"samples": [(0, "a.wav", 1), (0, "b.wav", 2), (1e9 + 0.5, "c.wav", 3)]} if osx else {}), **({"stops": [(0, 0), (0, 5)]} if game == "sm" else {}))))
+    # --- row labels and row order of EVERY list (notes, tempo, SV, samples, the .sm lists): reversed time order under reversed labels,
+    #     sorted() of an unsorted list (labels permuted), permuted rows and labels
+    rows = dict(hits=[(900, 0), (600, 1), (250, 2), (0, 3)], holds=[(800, 3, 50), (700, 1, 100), (-100, 0, 10)], bpms=[(2000, 90), (1000, 180), (0, 120)])
+    if sv:
+        rows["svs"] = [(2100, 0.5), (1100, 2.0), (100, 1.5)]
+    if osx:
+        rows["samples"] = [(1234.5, "b.wav", 70), (300, "a.wav", 40), (-20, "c.wav", 5)]
+    if game == "sm":
+        rows.update(stops=[(1500, 250), (500, 100)], mines=[(750, 1), (50, 2)], rolls=[(5000, 2, 300), (4000, 1, 30)], fakes=[(5100, 0), (100, 1)], lifts=[(5200, 1), (20, 0)], keysounds=[(5300, 3), (10, 2)])
+    names = [k for k in rows]
+    out.append(("unsorted_rev_labels", std_spec(game, labels={k: "rev" for k in names}, **rows)))
+    out.append(("sorted_after_unsorted", dict(std_spec(game, **rows), post={k: "sorted" for k in names})))
+    out.append(("permuted_rows_and_labels", dict(std_spec(game, **rows), post={k: "perm" for k in names})))
+    out.append(("masked_every_list", std_spec(game, labels={k: "mask" for k in names}, **rows)))
+    # --- integer-typed columns (charts written in code with whole numbers)
+    out.append(("int_typed", _intify(std_spec(game, hits=[(0, 0), (1001, 1), (333, 2)], holds=[(2000, 3, 501), (7, 0, 1)], bpms=[(0, 123), (1001, 175)], **({"svs": [(100, 2)]} if sv else {}),
+                                              **({"samples": [(301, "a.wav", 40)]} if osx else {}), **({"stops": [(1501, 251)]} if game == "sm" else {})))))
+    # --- text fields that must come through unchanged
+    out.append(("text_meta", dict(std_spec(game, hits=[(0, 0), (250, 1)], holds=[(500, 2, 125)], bpms=[(0, 120)], **sv), meta=_TEXT_META[game])))
     return out
 
 
@@ -189,33 +366,71 @@ def _rate_objects(game):
     out.append((f"{game}:set2", dict(game=game, maps=[d["labels"], d["empty_holds_svs_samples"]])))
     out.append((f"{game}:set_with_empty", dict(game=game, maps=[d["all_empty"], d["only_holds"]])))
     out.append((f"{game}:set0", dict(game=game, maps=[])))
+    # an empty chart / a chart lacking one kind of object in the MIDDLE of a set; charts of different shapes side by side
+    out.append((f"{game}:set_empty_in_the_middle", dict(game=game, maps=[d["full"], d["all_empty"], d["permuted_rows_and_labels"]])))
+    out.append((f"{game}:set_kind_missing_in_the_middle", dict(game=game, maps=[d["full"], d["no_bpms"], d["no_hits_no_svs"], d["ties_extremes"]])))
+    out.append((f"{game}:set_int_and_text", dict(game=game, maps=[d["int_typed"], d["text_meta"], d["unsorted_rev_labels"]])))
+    if game == "osu":
+        out.append((f"{game}:set_previews", dict(game=game, maps=[d["preview_sentinel"], d["full"], d["only_samples"], d["preview_fraction"]])))
     if game == "sm":
         out.append((f"{game}:set_offset", dict(game=game, maps=[dict(std_spec(game, hits=[(1000, 0), (1500, 1)], holds=[(2000, 2, 500)], bpms=[(1000, 120)]))])))
         out.append((f"{game}:set_neg_offset", dict(game=game, maps=[dict(std_spec(game, hits=[(-250, 0), (250, 1)], holds=[], bpms=[(-250, 120)]))], meta=dict(sample_start=0.0, sample_length=12345.6))))
+        out.append((f"{game}:set_stops_int_fields", dict(game=game, maps=[d["stops_no_holds"], d["full"]], meta=dict(offset=1000, sample_start=2000, sample_length=8001))))
+        out.append((f"{game}:set_default_fields", dict(game=game, maps=[d["one_row_each"]], meta=dict(offset=0.0, sample_start=0.0, sample_length=10000.0))))
     return out
+
+
+RATES_MORE = [1.0, 3, 1 / 3, 0.1, 10, 0.9, 4 / 3, 0.001, 1000.0, 0.999999, 7, 1.0000001]
+
+
+def _rate_plan(rng, quick):
+    """[(round, label, case)]: for every object of every game - round 0: one rate != 1; round 1: rate 1 (int or float); round 2..: the other
+    rates.  The plan is run round by round (objects shuffled inside a round), so a run that is cut short by the time budget still has seen
+    every object of every game."""
+    plan = []
+    for game in GAMES:
+        for label, spec in _rate_objects(game):
+            pool = [r for r in RATES if r != 1]
+            rng.shuffle(pool)
+            more = rng.sample(RATES_MORE, 2 if quick else len(RATES_MORE))
+            rnd = [round(rng.uniform(0.3, 3.0), 6) for _ in range(1 if quick else 40)]
+            rates = [pool[0], rng.choice([1, 1.0]), more[0], pool[1], rnd[0]] + more[1:] + pool[2:] + rnd[1:]
+            for k, r in enumerate(rates):
+                case = dict(spec=spec, rate=r, rate2=rng.choice(RATES + RATES_MORE[:7] + [round(rng.uniform(0.3, 3.0), 6)]))
+                integral = isinstance(r, int) or float(r).is_integer()
+                case["rate_type"] = rng.choice(["py", "py", "py", "np_float64", "np_int64" if integral else "np_float64"])
+                case["call"] = rng.choice(["pos", "pos", "kw", "class"])
+                case["independence"] = k == 0 or rng.random() < 0.25
+                plan.append((k, rng.random(), label, case))
+    plan.sort(key=lambda x: (x[0], x[1]))
+    return [(k, label, case) for k, _, label, case in plan]
 
 
 @bounded("C13", note="rate(by) on in-memory charts and mapsets of all five games: times / r, bpm * r, the rest equal, original untouched, rate(1) identity, composition; osu and SM file-level fields")
 def rate_in_memory(rep):
     rng = rep.rng
-    n = 0
-    for game in GAMES:
-        for label, spec in _rate_objects(game):
-            rates = list(RATES) + [round(rng.uniform(0.3, 3.0), 6) for _ in range(rep.n(3, 40))]
-            for r in rates:
-                if rep.out_of_time(40, 300):
-                    break
-                case = dict(spec=spec, rate=r)
-                if r != 1 or True:
-                    case["rate2"] = rng.choice(RATES + [round(rng.uniform(0.3, 3.0), 6)])
-                rep.case(case, nontrivial=(r != 1))
-                n += 1
-                for what, d in _run_rate_case(case):
-                    rep.fail(what, case, f"{label}: {d}")
-    rep.bound = (f"5 games x (5-6 charts: full, empty hold/SV/sample lists, holds only, all empty, gappy / filtered labels, osu preview sentinel; 4-6 mapsets incl. an empty one and .sm file offsets "
-                 f"1000 / -250) x rates {RATES} + {rep.n(3, 40)} random in [0.3, 3]; each with a second rate for the composition clause; {n} cases")
-    rep.rule = "a case is (chart or mapset, rate, second rate); non-trivial when rate != 1"
+    quick = rep.n(True, False)
+    plan = _rate_plan(rng, quick)
+    n, rounds, games = 0, set(), {}
+    for k, label, case in plan:
+        if rep.out_of_time(40, 300):
+            break
+        rep.case(case, nontrivial=(case["rate"] != 1))
+        n += 1
+        rounds.add(k)
+        games[label.split(":")[0]] = games.get(label.split(":")[0], 0) + 1
+        for what, d in _run_rate_case(case):
+            rep.fail(what, case, f"{label}: {d}")
+    nobj = len({label for _, label, _ in plan})
+    rep.bound = (f"5 games x (17-22 charts: full, each list empty on its own (holds+SVs+samples / hits / tempo / all), one row per list, SVs only, samples only, ties (two rows of a list at one time with different values, time 0, "
+                 f"zero-length holds, +-1e6..1e9 ms), EVERY list under reversed / masked / gappy / sorted() / permuted row labels and out of time order, integer-typed columns, non-ASCII text fields, osu preview -1 / 0 / fractional, "
+                 f".sm stops without holds; 8-12 mapsets incl. an empty one, an empty chart and a chart lacking one kind in the MIDDLE, osu charts with samples inside a generic MapSet, .sm file offsets 1000 / -250 / int-typed) "
+                 f"= {nobj} objects x rates {RATES} + {RATES_MORE} + random in [0.3, 3] ({len(plan)} planned, run round by round: every object first with one rate != 1, then with rate 1, then the rest; {n} run, rounds {sorted(rounds)[:1]}..{sorted(rounds)[-1:]}); "
+                 f"the rate passed as python number / numpy float64 / numpy int64, positionally / by keyword / through the class; each with a second rate for the composition clause and a repeated rate() of the same original; "
+                 f"for the first round and a quarter of the rest, original and result are edited afterwards (independence)")
+    rep.rule = "a case is (chart or mapset, rate, second rate, how the rate is passed); non-trivial when rate != 1"
     rep.extra["fields_not_asserted"] = {k: sorted(v) for k, v in UNASSERTED.items()}
+    rep.extra["cases_per_game"] = games
 
 
 @replayer("rate_in_memory")
@@ -332,7 +547,46 @@ def _got(m):
     return g
 
 
-def _write_read(game, obj):
+def _reorder(rows, order, seed):
+    """the same rows with every list in another ROW order (time order / reversed / shuffled); the chart is the same"""
+    if order in (None, "time"):
+        return rows
+    out = {}
+    for i, (k, v) in enumerate(rows.items()):
+        v = list(v)
+        if order == "reversed":
+            v.reverse()
+        else:
+            random.Random(seed * 31 + i).shuffle(v)
+        out[k] = v
+    return out
+
+
+def _write_read(game, obj, via="mem"):
+    """write -> read through the in-memory entry points, or through write_file / read_file (path as str or as Path)"""
+    from pathlib import Path
+
+    if via != "mem":
+        with tempfile.TemporaryDirectory(prefix="c13_") as td:
+            p = os.path.join(td, "rated é." + game)
+            p = Path(p) if via == "file_path" else p
+            obj.write_file(p)
+            if game == "osu":
+                from reamber.osu.OsuMap import OsuMap
+
+                return OsuMap.read_file(p), None
+            if game == "qua":
+                from reamber.quaver.QuaMap import QuaMap
+
+                return QuaMap.read_file(p), None
+            if game == "sm":
+                from reamber.sm.SMMapSet import SMMapSet
+
+                back_set = SMMapSet.read_file(p)
+                return back_set.maps[0], back_set
+            from reamber.bms.BMSMap import BMSMap
+
+            return BMSMap.read_file(p), None
     if game == "osu":
         from reamber.osu.OsuMap import OsuMap
 
@@ -386,11 +640,12 @@ def _cmp_timeline(game, rows, r, back, back_set, file0, clause):
 
 
 def _run_write_case(case):
-    """case: dict(game=, rows=plain rows on the grid, rate=r[, meta=...]).
+    """case: dict(game=, rows=plain rows on the grid, rate=r[, meta=..., order=, order_seed=, via=, through_set=, rate_type=, call=]).
     Returns [(what, detail)]; what == 'skipped_format_round_trip' (never reported as a failure) when the UNRATED chart does not
     survive write -> read either: that is a matter of the writer / reader properties (C01-C06), not of rate()."""
     game, r, rows = case["game"], case["rate"], case["rows"]
-    spec = _rows_to_spec(game, rows)
+    arg, call, via = _rate_arg(r, case.get("rate_type", "py")), case.get("call", "pos"), case.get("via", "mem")
+    spec = _rows_to_spec(game, _reorder(rows, case.get("order"), case.get("order_seed", 0)))
     clause = f"{game}_write_read_rated"
     meta = case.get("meta") or {}
     if game == "sm":
@@ -400,18 +655,26 @@ def _run_write_case(case):
         obj = build(dict(spec, meta=meta)) if meta else build(spec)
         file0 = float(obj.preview_time) if game == "osu" else None
     try:
-        b0, bs0 = _write_read(game, obj)
+        b0, bs0 = _write_read(game, obj, via)
         base = _cmp_timeline(game, rows, 1, b0, bs0, file0, clause)
     except Exception as ex:
         base = [(clause, f"{type(ex).__name__}: {ex}")]
     if base:
         return [("skipped_format_round_trip", f"unrated chart does not survive write -> read: {base[0][1]}")]
     try:
-        rated = obj.rate(r)
-        back, back_set = _write_read(game, rated)
+        if case.get("through_set") and game != "sm":
+            from reamber.base.MapSet import MapSet
+
+            rated = _call_rate(MapSet([obj]), arg, call).maps[0]  # the chart rated as a member of a generic mapset
+        else:
+            rated = _call_rate(obj, arg, call)
+        back, back_set = _write_read(game, rated, via)
     except Exception as ex:
         return [(clause, f"rate({r}) -> write -> read raised {type(ex).__name__}: {ex}")]
     return _cmp_timeline(game, rows, r, back, back_set, file0, clause)[:1]
+
+
+WRITE_RATES_MORE = [0.9, 4 / 3, 1.25, 0.8]
 
 
 def _mk_write_check(game):
@@ -421,27 +684,52 @@ def _mk_write_check(game):
         N = rep.n(10, 60)
         n = 0
         skipped = []
-        for kind in kinds:
-            for i in range(N if kind != "one" else 1):
+        seen = dict(order={}, via={}, through_set=0, kinds={})
+        plan = []
+        for i in range(N):  # kinds interleaved: a run cut short by the time budget has still seen every kind
+            for kind in kinds:
+                if kind == "one" and i > 0:
+                    continue
                 rows = _grid_chart(game, rng, kind)
-                rates = list(RATES) + [round(rng.uniform(0.4, 2.5), 4) for _ in range(rep.n(1, 6))]
+                rates = list(RATES) + [rng.choice(WRITE_RATES_MORE)] + [round(rng.uniform(0.4, 2.5), 4) for _ in range(rep.n(1, 6))]
+                rng.shuffle(rates)
                 for r in rates:
-                    if rep.out_of_time(40, 300):
-                        break
                     case = dict(game=game, rows=rows, rate=r)
-                    rep.case(case, nontrivial=(r != 1))
-                    n += 1
-                    for what, d in _run_write_case(case):
-                        if what == "skipped_format_round_trip":
-                            skipped.append(d)
-                        else:
-                            rep.fail(what, case, d)
-        rep.bound = (f"{game}: {len(kinds) - 1} chart kinds (full, empty hold list, empty SV/sample lists, hits only) x {N} random charts on their own beat grid "
+                    case["order"] = rng.choice(["time", "time", "reversed", "shuffled"])
+                    case["order_seed"] = rng.randrange(1000)
+                    case["via"] = rng.choice(["mem", "mem", "mem", "file", "file_path"])
+                    case["through_set"] = game != "sm" and rng.random() < 0.25
+                    integral = isinstance(r, int) or float(r).is_integer()
+                    case["rate_type"] = rng.choice(["py", "py", "np_float64", "np_int64" if integral else "np_float64"])
+                    case["call"] = rng.choice(["pos", "pos", "kw", "class"])
+                    if game == "osu" and rng.random() < 0.5:
+                        case["meta"] = dict(preview_time=rng.choice([0, 86398, 12345.6, 250, 999999]))
+                    if game == "sm" and rng.random() < 0.5:
+                        case["meta"] = dict(sample_start=rng.choice([0.0, 12345.6, 30000, 1.5]), sample_length=rng.choice([10000.0, 12345.6, 15000, 0.5]))
+                    plan.append((kind, case))
+        for kind, case in plan:
+            if rep.out_of_time(40, 300):
+                break
+            rep.case(case, nontrivial=(case["rate"] != 1))
+            n += 1
+            for k in ("order", "via"):
+                seen[k][case[k]] = seen[k].get(case[k], 0) + 1
+            seen["through_set"] += bool(case["through_set"])
+            seen["kinds"][kind] = seen["kinds"].get(kind, 0) + 1
+            for what, d in _run_write_case(case):
+                if what == "skipped_format_round_trip":
+                    skipped.append(d)
+                else:
+                    rep.fail(what, case, d)
+        rep.bound = (f"{game}: {len(kinds) - 1} chart kinds (full, empty hold list, empty SV/sample lists, hits only; interleaved) x {N} random charts on their own beat grid "
                      f"(1-3 tempo sections on measure lines, 4 columns, objects on 1/2, 1/3 or 1/4 beats"
-                     f"{', file offset in {0, 1000, -250, 37.5, 500}' if game == 'sm' else ''}) + a one-note chart; rates {RATES} + {rep.n(1, 6)} random; {n} cases")
+                     f"{', file offset in {0, 1000, -250, 37.5, 500}, sample window varied incl. sub-ms values' if game == 'sm' else ''}{', preview point varied incl. 0 and a sub-ms value' if game == 'osu' else ''}) + a one-note chart; "
+                     f"rates {RATES} + one of {WRITE_RATES_MORE} + {rep.n(1, 6)} random; rows of every list in time order / reversed / shuffled; written and read in memory or through write_file / read_file (str / Path); "
+                     f"{'the chart rated on its own or as a member of a generic MapSet; ' if game != 'sm' else ''}rate as python / numpy number, positional / keyword / through the class; {n} cases")
         rep.extra["cases_skipped_because_the_unrated_chart_does_not_survive_write_read"] = len(skipped)
         rep.extra["skipped_example"] = skipped[:1]
-        rep.rule = ("a case is (chart rows, rate): chart.rate(r) is written, read back with the library's reader and compared as multisets with the oracle's rated timeline "
+        rep.extra["dimensions_seen"] = seen
+        rep.rule = ("a case is (chart rows, rate, how it is held / written): chart.rate(r) is written, read back with the library's reader and compared as multisets with the oracle's rated timeline "
                     "(1 ms for osu/Quaver; one 192nd of a measure for .sm/.bms); non-trivial when rate != 1")
 
     fn.__name__ = f"rate_write_read_{game}"
